@@ -128,6 +128,9 @@ type Case struct {
 	// arrives as a stream: 0 = these entries are not exercised, 1 = one chunk, 2 = the calls dealt out over two
 	// chunks (even positions, odd positions), 3 = every call's arguments cut in two (id and name in the first chunk)
 	InputSplit int `json:"input_split,omitempty"`
+	// what hosts the node in the graph-hosted runs: "" = a Graph, workflow = a Workflow, nested = a Graph that is
+	// itself a node of an outer Graph
+	GraphKind string `json:"graph_kind,omitempty"`
 }
 
 // the assistant message as the chunks of a model's output stream (they concatenate to c.message())
@@ -284,7 +287,11 @@ func (c *Case) graphOptions(nopts []compose.ToolsNodeOption) []compose.Option {
 	for i, o := range nopts {
 		g := compose.WithToolsNodeOption(o)
 		if c.GraphOpts == "designated" || (c.GraphOpts == "mixed" && i%2 == 0) {
-			g = g.DesignateNode("tools")
+			if c.GraphKind == "nested" {
+				g = g.DesignateNodeWithPath(compose.NewNodePath("inner", "tools"))
+			} else {
+				g = g.DesignateNode("tools")
+			}
 		}
 		out = append(out, g)
 	}
@@ -1132,27 +1139,55 @@ func runOne(c *Case, mode, host string, entry ...string) (o RunObs, peer *RunObs
 		inv = func() ([]*schema.Message, error) { return tn.Invoke(ctx, msg, nopts...) }
 		str = func() (*schema.StreamReader[[]*schema.Message], error) { return tn.Stream(ctx, msg, nopts...) }
 	} else {
-		g := compose.NewGraph[*schema.Message, []*schema.Message]()
-		last := "tools"
-		err = g.AddToolsNode("tools", tn)
-		if err == nil && mode == "concat" && o.Entry == "" {
-			last = "after"
-			err = g.AddLambdaNode("after", compose.InvokableLambda(func(_ context.Context, in []*schema.Message) ([]*schema.Message, error) {
-				return in, nil
-			}))
-			if err == nil {
-				err = g.AddEdge("tools", "after")
-			}
-		}
-		if err == nil {
-			err = g.AddEdge(compose.START, "tools")
-		}
-		if err == nil {
-			err = g.AddEdge(last, compose.END)
-		}
+		after := compose.InvokableLambda(func(_ context.Context, in []*schema.Message) ([]*schema.Message, error) {
+			return in, nil
+		})
+		withAfter := mode == "concat" && o.Entry == ""
 		var r compose.Runnable[*schema.Message, []*schema.Message]
-		if err == nil {
-			r, err = g.Compile(ctx)
+		if c.GraphKind == "workflow" { // the node in a Workflow (all-predecessor / eager engine)
+			wf := compose.NewWorkflow[*schema.Message, []*schema.Message]()
+			wf.AddToolsNode("tools", tn).AddInput(compose.START)
+			last := "tools"
+			if withAfter {
+				last = "after"
+				wf.AddLambdaNode("after", after).AddInput("tools")
+			}
+			wf.End().AddInput(last)
+			r, err = wf.Compile(ctx)
+		} else {
+			g := compose.NewGraph[*schema.Message, []*schema.Message]()
+			last := "tools"
+			err = g.AddToolsNode("tools", tn)
+			if err == nil && withAfter {
+				last = "after"
+				err = g.AddLambdaNode("after", after)
+				if err == nil {
+					err = g.AddEdge("tools", "after")
+				}
+			}
+			if err == nil {
+				err = g.AddEdge(compose.START, "tools")
+			}
+			if err == nil {
+				err = g.AddEdge(last, compose.END)
+			}
+			switch {
+			case err != nil:
+			case c.GraphKind == "nested": // the graph with the node is itself a node of an outer graph
+				outer := compose.NewGraph[*schema.Message, []*schema.Message]()
+				err = outer.AddGraphNode("inner", g)
+				if err == nil {
+					err = outer.AddEdge(compose.START, "inner")
+				}
+				if err == nil {
+					err = outer.AddEdge("inner", compose.END)
+				}
+				if err == nil {
+					r, err = outer.Compile(ctx)
+				}
+			default:
+				r, err = g.Compile(ctx)
+			}
 		}
 		if err != nil {
 			o.Class, o.ErrMsg = "setup", short(err.Error())
@@ -1862,6 +1897,7 @@ func genCase(r *lib.Rng, tier string) *Case {
 	if r.Chance(1, 3) {
 		c.InputSplit = r.Range(1, 3)
 	}
+	c.GraphKind = r.Pick([]string{"", "", "workflow", "nested"})
 	if r.Chance(1, 50) {
 		c.Calls = nil
 	}
@@ -1892,6 +1928,9 @@ func (engine) Decode(raw json.RawMessage) (any, error) {
 	}
 	if c.InputSplit < 0 || c.InputSplit > 3 {
 		return nil, fmt.Errorf("input_split %d", c.InputSplit)
+	}
+	if c.GraphKind != "" && c.GraphKind != "workflow" && c.GraphKind != "nested" {
+		return nil, fmt.Errorf("graph_kind %q", c.GraphKind)
 	}
 	lists := [][]ToolDef{c.Tools}
 	for _, o := range c.optSeq() {
@@ -2122,6 +2161,7 @@ func (engine) runCase(c *Case) lib.Result {
 	if !c.RoleOK {
 		res.Tags = append(res.Tags, "malformed:role")
 	}
+	res.Tags = append(res.Tags, "graph-host:"+map[string]string{"": "graph", "workflow": "workflow", "nested": "nested-graph"}[c.GraphKind])
 	res.Tags = append(res.Tags, "entries:collect+transform:"+[]string{"not-run", "one-chunk", "calls-over-two-chunks", "arguments-cut-in-two"}[c.InputSplit])
 	if malformed > 0 {
 		res.Tags = append(res.Tags, "malformed:arguments")
